@@ -625,12 +625,12 @@ pub fn e2e_session(rep: &mut Report, seed: u64, verbose: bool) -> bool {
 
 pub fn c18(rep: &mut Report, cfg: &Cfg) {
     let mut rng = cfg.rng("C18");
-    let n = cfg.share(cfg.n(80, 3000)).max(2);
+    let n = cfg.share(cfg.n(80, 16_000)).max(2);
     for _ in 0..n {
         let seed = rng.next();
         c18_case(rep, seed, false);
     }
-    let ne2e = cfg.n(2, 10);
+    let ne2e = cfg.n(2, 24);
     for _ in 0..ne2e {
         e2e_session(rep, rng.next(), false);
     }
